@@ -799,7 +799,7 @@ def check_C31(res):
     res.add_trace("reload", v, path, own_tags=["C31"])
     os.remove(path)
     res.assumptions += ["zone-file modification times are set explicitly and increase with every edit (the daemon's unchanged-file shortcut compares mtimes)",
-                        "a sentinel zone whose TXT record carries the step number tells the driver when a reload has taken effect; a reload not visible after 20 s is a rejected step"]
+                        "a sentinel zone whose TXT record carries the step number tells the driver when a reload has taken effect; a reload not visible after 60 s is a rejected step"]
     return "(M) every reload history over nested zones p, c.p, d.c.p, q (any configured subset in any order, any subset loading): the catalog built by load_impl equals the declarative expectation and failures are independent; (V) histories of 2-6 steps against the running daemon built from /repo: per step a random configured subset in random order, each file rewritten valid / with a syntax error / valid syntax but failing validation (no apex NS) / deleted / left unchanged, SIGHUP, then TXT queries for every universe zone and a name below it; raw responses decoded and judged in TLC"
 
 
